@@ -7,7 +7,7 @@ from .. import api_model as A
 from .. import frames as F
 from .. import layout_spec as LS
 from .. import terms as T
-from ..interp import Outcome, conj, neg
+from ..interp import Outcome, conj, ite, neg
 from ..model import AnalysisError, EnumRef, Program, loc
 from ..report import Report
 from ..terms import c
@@ -115,7 +115,11 @@ def run(prog: Program, rep: Report, tier: str) -> None:
                     cur = LS.term_of(prog, reply["getters"][ROLE[name]], reply1)
                     cur = restrict(cur, pcs)
                     if name == "target_temp":
-                        eff[name] = tt if tgiven else cur
+                        t_in_combo = combo.get("target_temp") is not None
+                        t_off = ("not", ("truthy", tt)) in pcs
+                        # the path may have forked on "a target was given" (a statement-level `or`) or not (the merge done
+                        # inside an expression): then the value passed on is the choice itself
+                        eff[name] = tt if tgiven else (cur if (t_off or not t_in_combo) else ite(("truthy", tt), tt, cur))
                     else:
                         eff[name] = ("sym", name, ("enum", f"{DEV}:{ENUM[name]}")) if given[name] else cur
                 if is_sep:
@@ -132,6 +136,8 @@ def run(prog: Program, rep: Report, tier: str) -> None:
                     counts["R16.1"] += 1
                     got = amap.get(name)
                     want = eff.get(name)
+                    if got is not None:
+                        got = restrict(got, pcs)          # (a choice made earlier in an expression, decided later on the path)
                     if got is None or want is None or canon(got) != canon(want):
                         fail("R16.1" if name != "swing" or not is_sep else "R16.3",
                              f"combo given={sorted(k for k, v in given.items() if v)}{' +target' if tgiven else ''}{' separate-swing' if is_sep else ''}: build_command receives {name}={T.show(got)[:120] if got else None}; expected {T.show(want)[:120] if want else None}")
